@@ -88,6 +88,135 @@ def run(chk, runner_ok):
     if model:
         outs = model.call([(1, [canon(s), sp, off]) for s, sp, off in pcases])
         chk.correspond("POSITION", pcases, impl, outs)
+    entity_positions(chk)
+    check_positions(chk)
+
+
+def expected_linecol(s, p):
+    return [1 + s[:p].count("\n"), p - (s.rfind("\n", 0, p) + 1) + 1]
+
+
+def entity_positions(chk):
+    """positions of every entry of parsed files: start, end, value start; junk messages"""
+    import re
+    from harness import parsing
+    rng = chk.rng
+    n_entries = 0
+    for fmt in parsing.FORMATS + ["ftl"]:
+        for _ in range(chk.n(300, 3000)):
+            if fmt == "ftl":
+                from harness.props.c01 import FTL_TOKENS
+                text = "".join(rng.choice(FTL_TOKENS) for _ in range(rng.randint(0, 12)))
+                from compare_locales import parser
+                p = parser.getParser("f.ftl")
+                p.readUnicode(text)
+                es = list(p.walk())
+            else:
+                text = parsing.random_text(fmt, rng)
+                es = parsing.raw_walk(fmt, text)
+                if es is None:
+                    continue
+            for e in es:
+                n_entries += 1
+                chk.evaluations += 1
+                checks = [("start", list(e.position()), e.span[0]),
+                          ("end", list(e.position(-1)), e.span[1])]
+                k = parsing.kind_of(e) if fmt != "ftl" else None
+                vs = getattr(e, "val_span", None)
+                if hasattr(e, "value_position") and vs is not None and tuple(vs) != (-1, -1):
+                    checks.append(("value", list(e.value_position()), vs[0]))
+                    checks.append(("value-end", list(e.value_position(-1)) if fmt != "ftl"
+                                   else expected_linecol(text, vs[1]), vs[1]))
+                for what, got, off in checks:
+                    if got != expected_linecol(text, off):
+                        chk.fail("entry-position", {"format": fmt, "text": text, "span": list(e.span),
+                                                    "which": what},
+                                 {"got": got, "expected": expected_linecol(text, off)})
+                if hasattr(e, "error_message"):
+                    m = re.search(r"from line (\d+) column (\d+) to line (\d+) column (\d+)$",
+                                  e.error_message(), re.S)
+                    want = expected_linecol(text, e.span[0]) + expected_linecol(text, e.span[1])
+                    if not m or [int(x) for x in m.groups()] != want:
+                        chk.fail("junk-message-position", {"format": fmt, "text": text,
+                                                           "span": list(e.span)},
+                                 {"message": e.error_message(), "expected": want})
+    chk.notes.append(f"ENTITY-POS: {n_entries} entries of parsed files checked (start, end, value, junk message)")
+    chk.distinct.update(("entpos", i) for i in range(n_entries))
+
+
+CHECK_FILES = {
+    "x.properties": (["a = %S and %S", "b = one %1$S two %2$S", "# c\nc = plain"],
+                     ["%S %d", "%", "%1$S %3$S", "x\\\n   %q", "fine %S %S", "%2$S %1$S"],
+                     lambda k, v: f"{k} = {v}\n"),
+    "x.dtd": (['<!ENTITY a "text &known; more">', '<!ENTITY b "12">', '<!ENTITY c "width: 3em;">'],
+              ["&unknown; y", "x <b>z", "a\n\n  & b", "fine", "x</i>", "12em", "width: 3"],
+              lambda k, v: f'<!ENTITY {k} "{v}">\n'),
+    "x.ftl": (["a = Value\n    .title = T", "b = { $n ->\n   [one] x\n  *[other] y\n }", "c = { a }"],
+              ["Value", "V\n    .title = T\n    .title = U", "{ b }", "{ $n ->\n  [one] q\n  [one] r\n *[other] s\n }"],
+              lambda k, v: f"{k} = {v}\n"),
+}
+
+
+def check_positions(chk):
+    """positions attached to check messages lie between the start of their entity and EOF"""
+    import os
+    import re
+    import shutil
+    import tempfile
+    from compare_locales.compare.content import ContentComparer
+    from compare_locales.compare.observer import Observer
+    from compare_locales.paths import File
+    from compare_locales import parser
+    rng = chk.rng
+    tmp = tempfile.mkdtemp(prefix="verif_c17_")
+    n_msgs = 0
+    try:
+        for name, (refs, vals, fmtline) in CHECK_FILES.items():
+            reftext = "\n".join(refs) + "\n"
+            keys = ["a", "b", "c"]
+            for _ in range(chk.n(60, 600)):
+                pad = "\n" * rng.randint(0, 3)
+                l10n = pad + "".join(("\n" * rng.randint(0, 2)) + fmtline(k, rng.choice(vals))
+                                     for k in rng.sample(keys, 3))
+                rp, lp = os.path.join(tmp, "ref_" + name), os.path.join(tmp, name)
+                open(rp, "w").write(reftext)
+                open(lp, "w").write(l10n)
+                cc = ContentComparer()
+                cc.observers.append(Observer())
+                cc.compare(File(rp, name), File(lp, name, locale="de"), None)
+                p = parser.getParser(name)
+                p.readUnicode(l10n)
+                ents = {e.key: e for e in p.walk() if isinstance(e, parser.Entity)}
+                eof = tuple(expected_linecol(l10n, len(l10n)))
+
+                def msgs(node):
+                    if isinstance(node, list):
+                        for item in node:
+                            for kind, text in item.items():
+                                if kind in ("error", "warning") and isinstance(text, str):
+                                    yield text
+                    elif isinstance(node, dict):
+                        for v in node.values():
+                            yield from msgs(v)
+                for text in msgs(cc.observers.toJSON()["details"]):
+                    m = re.search(r" at line (\d+), column (\d+) for (\S+)$", text)
+                    if not m:
+                        continue
+                    n_msgs += 1
+                    chk.evaluations += 1
+                    line, col, key = int(m.group(1)), int(m.group(2)), m.group(3)
+                    e = ents.get(key)
+                    if e is None:
+                        continue
+                    start = tuple(e.position())
+                    if not (start <= (line, col) <= eof) or col < 1 or line < 1:
+                        sig = ("dtd-whole-value-position-line-minus-one"
+                               if name.endswith(".dtd") and col == 0 else "check-position-out-of-bounds")
+                        chk.fail(sig, {"file": name, "l10n": l10n, "message": text},
+                                 {"entity_start": start, "eof": eof, "reported": [line, col]})
+    finally:
+        shutil.rmtree(tmp, ignore_errors=True)
+    chk.notes.append(f"CHECK-POS: {n_msgs} check messages with positions examined")
 
 
 def replay(chk, path):
@@ -95,6 +224,10 @@ def replay(chk, path):
     rc = 0
     for f in data.get("failures", []):
         c = f["case"]
+        if "offset" not in c:
+            print("case", c, f["detail"])
+            rc = 1
+            continue
         got = impl_linecol(c["text"], c["offset"])
         print("case", c, "impl", got, "expected", f["detail"]["expected"])
         rc |= got != f["detail"]["expected"]
